@@ -38,6 +38,9 @@ type File struct {
 	Messages  []*Message `json:"messages,omitempty"`
 	Enums     []*Enum    `json:"enums,omitempty"`
 	Services  []*Service `json:"services,omitempty"`
+	// ViaPrelude: the file imports none of the option / well-known files it uses itself; it imports
+	// `prelude/prelude.proto`, which re-exports them all with `import public` (a common company-wide layout).
+	ViaPrelude bool `json:"via_prelude,omitempty"`
 }
 
 type Message struct {
@@ -111,6 +114,8 @@ type Rules struct {
 	Unique   *bool   `json:"unique,omitempty"`
 	MinPairs *uint64 `json:"min_pairs,omitempty"`
 	MaxPairs *uint64 `json:"max_pairs,omitempty"`
+	// IgnoreIfZero: `ignore = IGNORE_IF_ZERO_VALUE` next to the rules (the rules still apply to every non-zero value).
+	IgnoreIfZero bool `json:"ignore_if_zero,omitempty"`
 }
 
 type Oneof struct {
